@@ -34,7 +34,9 @@ RULE = ('chain: random source volume (shape 1..6 per axis, 48 signed axis permut
         'on the boundary (power-of-two class) / outside, all four (round, check) combinations, plus '
         'map_reference_to_indices; v2vdt: index arrays of dtype int8/uint8/int16/uint16/int32/uint32/int64/uint64/float16/32/64/bool '
         'with magnitudes up to the limits of the dtype (64-bit: 2^40), power-of-two class geometries, exact integer/Fraction '
-        'oracle.  Non-trivial = the call reaches the comparison of interest (not an early refusal); '
+        'oracle; v2vhist: 2-7 calls on ONE transformer object (and one geometry object) with different dtypes and point counts '
+        '(repeated counts, integer-then-float and narrow-then-wide orders), each answer against the exact oracle and a fresh '
+        'object, object state and input arrays must not change.  Non-trivial = the call reaches the comparison of interest (not an early refusal); '
         'distinct by (stream, ops / perturbation kind, shapes, orientation class, outcome).')
 ASSUMPTIONS = [
     'spacing = norm of an affine column and unit vector = column / norm return the factors the geometry was built from '
@@ -993,6 +995,155 @@ def run_v2vdt_case(ctx, i, reqs, pending):
         pending.append(('pts', case, impl, F(0)))
 
 
+# ------------------------------------------------------------------------------------------ stream: histories on ONE object
+def _draw_points(r, dt, n):
+    npd = np.dtype(dt)
+    xs = []
+    for _ in range(n):
+        x = []
+        for _ax in range(3):
+            if npd.kind in 'iu':
+                info = np.iinfo(npd)
+                lo, hi = max(int(info.min), -2 ** 40), min(int(info.max), 2 ** 40)
+                cands = [0, 1, 2, 3, r.randint(0, 9), r.randint(0, 9), hi, hi - 1, hi // 2, 300, 70000]
+                cands = [c for c in cands if lo <= c <= hi]
+                if lo < 0:
+                    cands += [-1, -2, r.randint(-9, -1), lo]
+                x.append(F(r.choice(cands)))
+            elif npd.kind == 'b':
+                x.append(F(r.choice([0, 1])))
+            else:
+                big = {'float16': 2 ** 11, 'float32': 2 ** 24, 'float64': 2 ** 40}[dt]
+                x.append(r.choice([F(r.randint(-40, 40), 8), F(r.randint(-40, 40), 8), F(r.randint(0, 48), 8), F(r.randint(-big, big))]))
+        xs.append(x)
+    return xs
+
+
+def _expect_v2v(ys, rounded, dt):
+    npd = np.dtype(dt)
+    if rounded:
+        return [[F(round(v)) for v in y] for y in ys]
+    if npd.kind == 'f' and dt != 'float64':
+        return [[F(float(npd.type(float(v)))) for v in y] for y in ys]
+    return [list(y) for y in ys]
+
+
+def _as_fracs(out):
+    o = np.asarray(out)
+    return [[F(int(v)) if o.dtype.kind in 'iu' else F(float(v)) for v in row] for row in o.reshape(-1, 3)]
+
+
+def _state(obj):
+    """snapshot of an object's attributes (arrays by value, dtype and shape)"""
+    snap = {}
+    for k, v in vars(obj).items():
+        if isinstance(v, np.ndarray):
+            snap[k] = ('ndarray', str(v.dtype), v.shape, v.tobytes())
+        else:
+            snap[k] = ('value', repr(v))
+    return snap
+
+
+def gen_v2vhist(ctx, i):
+    r = ctx.rng('v2vhist', i)
+    a, b, _dt, _xs, _ys = gen_v2vdt(ctx, 10 ** 6 + i)        # geometries of the power-of-two class
+    rounded, check = r.random() < 0.5, r.random() < 0.4
+    counts = r.choice([[1], [2], [1, 2], [3], [1, 1, 2], [2, 3]])
+    calls = []
+    # typical orders: integer grid points first, sub-voxel floats later; narrow integers first, wide ones later; random
+    order = r.choice(['int-then-float', 'narrow-then-wide', 'random', 'random'])
+    for c in range(r.randint(2, 7)):
+        if order == 'int-then-float':
+            dt = r.choice(['int64', 'int32', 'int16', 'uint8']) if c == 0 else r.choice(['float64', 'float64', 'float32', 'int64'])
+        elif order == 'narrow-then-wide':
+            dt = r.choice(['uint8', 'int8', 'uint16']) if c == 0 else r.choice(['int64', 'int32', 'uint16', 'float64'])
+        else:
+            dt = r.choice(DTYPES)
+        n = r.choice(counts)
+        calls.append((dt, _draw_points(r, dt, n)))
+    return a, b, rounded, check, order, calls
+
+
+def run_v2vhist_case(ctx, i, reqs, pending):
+    """several calls on ONE transformer object (and on ONE geometry object for map_reference_to_indices): every answer must
+    equal the exact image and the answer of a fresh object; the objects must not change state; inputs must not be modified"""
+    from highdicom.volume import VolumeToVolumeTransformer
+    a, b, rounded, check, order, calls = gen_v2vhist(ctx, i)
+    A, B = make_geometry(a), make_geometry(b)
+    base = {'stream': 'v2vhist', 'index': i, 'seed': ctx.seed, 'round_output': rounded, 'check_bounds': check, 'order': order,
+            'calls': [(dt, len(xs)) for dt, xs in calls]}
+    st, tr = _call(VolumeToVolumeTransformer, A, B, round_output=rounded, check_bounds=check)
+    if st != 'ok':
+        ctx.fail(base, f'transformer could not be constructed: {tr}', site='v2v/construct')
+        return
+    s_tr, s_B = _state(tr), _state(B)
+    seen = set()
+    for cno, (dt, xs) in enumerate(calls):
+        npd = np.dtype(dt)
+        pts = np.array([[int(v) if npd.kind in 'iub' else float(v) for v in x] for x in xs], dtype=npd).reshape(-1, 3)
+        if any(F(float(pts[k, c])) != xs[k][c] for k in range(len(xs)) for c in range(3)):
+            continue
+        keep = pts.copy()
+        ys = [to_idx(b, to_ref(a, x)) for x in xs]
+        want = _expect_v2v(ys, rounded, dt)
+        want_fail = check and any(v < F(-1, 2) or v > F(b['shape'][ax]) - F(1, 2) for w in want for ax, v in enumerate(w))
+        case = dict(base, call=cno, dtype=dt, n=len(xs))
+        st, out = _call(tr, pts)
+        repeat_count = (len(xs) in seen)
+        seen.add(len(xs))
+        ctx.case(sample=case if i % 43 == 0 and cno == 1 else None,
+                 nontrivial_key=('v2vhist', order, cno, dt, len(xs), repeat_count, rounded, check, st),
+                 stream='v2vhist', history_call=min(cno, 6), index_dtype=dt, same_count_as_earlier_call=repeat_count,
+                 outcome=('ok' if st == 'ok' else out))
+        # fresh object, same call
+        st2, out2 = _call(VolumeToVolumeTransformer(A, B, round_output=rounded, check_bounds=check), keep.copy())
+        if (st == 'ok') != (st2 == 'ok') or (st == 'ok' and (np.asarray(out).dtype != np.asarray(out2).dtype
+                                                             or not np.array_equal(np.asarray(out), np.asarray(out2)))):
+            ctx.fail(case, {'what': 'answer of a transformer that was called before differs from the answer of a fresh transformer',
+                            'indices': [[str(v) for v in x] for x in xs],
+                            'used': (np.asarray(out).tolist() if st == 'ok' else out),
+                            'fresh': (np.asarray(out2).tolist() if st2 == 'ok' else out2)}, site='v2v/history-vs-fresh')
+        if not np.array_equal(pts, keep):
+            ctx.fail(case, 'the index array passed to the transformer was modified', site='v2v/input-modified')
+        if want_fail:
+            if st == 'ok':
+                ctx.fail(case, {'what': 'bounds check passed although a point lies outside the target',
+                                'indices': [[str(v) for v in x] for x in xs]}, site='v2v/bounds-missed')
+        elif st != 'ok':
+            ctx.fail(case, {'what': f'transformer raised {out} although no point lies outside the target',
+                            'indices': [[str(v) for v in x] for x in xs]}, site='v2v/history-false-failure')
+        elif _as_fracs(out) != want:
+            ctx.fail(case, {'what': 'index mapping differs from mapping through physical space (transformer object used before)',
+                            'indices': [[str(v) for v in x] for x in xs], 'got': [[str(v) for v in g] for g in _as_fracs(out)],
+                            'want': [[str(v) for v in w] for w in want]}, site='v2v/history-mapping')
+        if _state(tr) != s_tr:
+            changed = sorted(k for k in set(s_tr) | set(_state(tr)) if s_tr.get(k) != _state(tr).get(k))
+            ctx.disagree('L0', case, {'changed_attributes': changed}, 'stateless (entry_points_hold_no_state)',
+                         'transformer object changed state during __call__')
+            s_tr = _state(tr)
+        # the same points through map_reference_to_indices of the ONE target geometry object
+        refs = np.array([[float(v) for v in to_ref(a, x)] for x in xs], dtype=np.float64).reshape(-1, 3)
+        st3, out3 = _call(B.map_reference_to_indices, refs, round_output=rounded, check_bounds=check)
+        want3 = [[F(round(v)) if rounded else v for v in y] for y in ys]
+        fail3 = check and any(v < F(-1, 2) or v > F(b['shape'][ax]) - F(1, 2) for y in ys for ax, v in enumerate(y))
+        if (st3 != 'ok') != fail3 or (st3 == 'ok' and _as_fracs(out3) != want3):
+            ctx.fail(dict(case, api='map_reference_to_indices'),
+                     {'what': 'map_reference_to_indices on a geometry object used before: wrong answer',
+                      'got': (np.asarray(out3).tolist() if st3 == 'ok' else out3)}, site='ref2idx/history')
+        if _state(B) != s_B:
+            ctx.disagree('L0', dict(case, api='map_reference_to_indices'), 'state changed', 'stateless',
+                         'geometry object changed state during a call')
+            s_B = _state(B)
+        # model (a function of the arguments)
+        info = np.iinfo(npd) if npd.kind in 'iu' else None
+        djson = {'kind': npd.kind, 'lo': int(info.min) if info else 0, 'hi': int(info.max) if info else 0,
+                 'float': FLOAT_TAG.get(dt, 'f64')}
+        impl = ('ok', _as_fracs(out)) if st == 'ok' else ('err', _err_kind(out))
+        reqs.append(('v2v', {'from': [rat(v) for v in affine12(a)], 'to': [rat(v) for v in affine12(b)], 'shape': b['shape'],
+                             'round': rounded, 'check': check, 'pts': [[rat(v) for v in x] for x in xs], 'dtype': djson}))
+        pending.append(('pts', case, impl, F(0)))
+
+
 # ------------------------------------------------------------------------------------------ L2: translated bodies on a grid
 def run_helpers(ctx, reqs, pending):
     """The translated per-axis crop/pad derivation composed with the model's slice semantics, against
@@ -1061,7 +1212,7 @@ def check_plan(ctx, cell, ans):
 
 # ------------------------------------------------------------------------------------------ run / replay
 STREAMS = {'chain': run_chain_case, 'perturb': run_perturb_case, 'geq': run_geq_case, 'v2v': run_v2v_case,
-           'v2vdt': run_v2vdt_case}
+           'v2vdt': run_v2vdt_case, 'v2vhist': run_v2vhist_case}
 
 
 def _resolve(ctx, reqs, pending):
@@ -1113,7 +1264,7 @@ def run(ctx, only=None):
         run_helpers(ctx, reqs, pending)
         run_slice_grid(ctx, reqs, pending)
     budget = {'chain': ctx.n(1000, 12000), 'perturb': ctx.n(800, 9000), 'geq': ctx.n(1000, 10000), 'v2v': ctx.n(500, 5000),
-              'v2vdt': ctx.n(600, 6000)}
+              'v2vdt': ctx.n(600, 6000), 'v2vhist': ctx.n(500, 5000)}
     for stream, fn in STREAMS.items():
         if only is not None and only[0] != stream:
             continue
